@@ -143,9 +143,9 @@ def finish(merged, tier, seed):
                                          "gives other bytes", "case": {"kind": "refs", "k": k}, "observed": None,
                                          "expected": None, "shard": -1})
     for oid, res in refs.items():
-        if oid.startswith("fail-") and res["exc"] is None:
+        if (oid.startswith("fail-") or oid.endswith("-unknown")) and res["exc"] is None:
             merged["inconclusive"].append(f"{oid} was expected to fail in the reference run")
-        if not oid.startswith("fail-") and res["exc"] is not None:
+        if not (oid.startswith("fail-") or oid.endswith("-unknown")) and res["exc"] is not None:
             merged["violations"].append({"mechanism": "operation-fails-in-fresh-interpreter", "what":
                                          f"{oid} raised {res['exc']} when run alone", "case": {"kind": "refs", "op": oid},
                                          "observed": None, "expected": None, "shard": -1})
